@@ -461,8 +461,12 @@ def _run_live(acc, tier, ps):
         else:
             # the child says when its interpreter is up: a signal that lands during start-up (site import, handler
             # installation) can be swallowed there, which is the child's business and not wait()'s
-            sp = subprocess.Popen([sys.executable, "-c", "import sys, time; print('up', flush=True); time.sleep(120)"],
-                                  stdout=subprocess.PIPE)
+            # (and it takes the default action: a check started in the background of a non-interactive shell inherits
+            # SIGINT/SIGQUIT as ignored, which its children would otherwise keep)
+            sp = subprocess.Popen([sys.executable, "-c", "import signal, sys, time\n"
+                                   f"try: signal.signal({int(v)}, signal.SIG_DFL)\n"
+                                   "except (OSError, ValueError): pass\n"
+                                   "print('up', flush=True); time.sleep(120)"], stdout=subprocess.PIPE)
             sp.stdout.readline()
             want = -int(v)
         viols = []
